@@ -227,6 +227,20 @@ func TestC17_Grid(t *testing.T) {
 	} else {
 		c.Excluded(idEvalOddKeys)
 	}
+	if !ex.errTop {
+		for _, sc := range scriptErrTop {
+			cmds = append(cmds, []string{"EVAL", sc, "0"}, []string{"EVALRO", sc, "0"})
+		}
+	} else {
+		c.Excluded(idEvalErrOK)
+	}
+	if !ex.bigNum {
+		for _, sc := range scriptBigNum {
+			cmds = append(cmds, []string{"EVAL", sc, "0"}, []string{"EVALNA", sc, "0"})
+		}
+	} else {
+		c.Excluded(idEvalBigNum)
+	}
 	if !ex.nonFinite {
 		cmds = append(cmds, []string{"SET", "fleet", "nf", "POINT", "nan", "inf"}, []string{"GET", "fleet", "nf", "POINT"}, []string{"SCAN", "fleet", "BOUNDS"}, []string{"NEARBY", "fleet", "DISTANCE", "POINT", "1", "2"}, []string{"DEL", "fleet", "nf"})
 	} else {
@@ -245,9 +259,89 @@ func TestC17_Grid(t *testing.T) {
 			p.Steps = append(p.Steps, mkStep(cmd, lane, name, "grid"))
 		}
 	}
+	nfSteps := nonFiniteSlotSteps()
+	p.Steps = append(p.Steps, nfSteps...)
+	c.LabelN("nonfinite-slot-steps", len(nfSteps))
 	r := newRunner(mainTrio, c, t, &p, ex)
 	r.run() // grid steps are keyed by their command line, not by command name
 	r.commit()
 	c.Exhaustive(true)
 	c.States(len(cmds), len(p.Steps))
+}
+
+// nonFiniteSpellings go into every numeric operand slot of the templates
+// below: the command must be refused in both modes or answered well-formed in
+// both (and a stored non-finite value must not surface later as bare NaN/Inf).
+var nonFiniteSpellings = []string{"nan", "NaN", "inf", "+Inf", "-inf", "1e999"}
+
+func nonFiniteSlotSteps() []step {
+	type tmpl struct {
+		args  []string
+		slots []int
+		after [][]string // read-backs / clean-up sent right after each variant
+	}
+	readNF := [][]string{{"GET", "nf", "a", "POINT"}, {"GET", "nf", "a", "BOUNDS"}, {"SCAN", "nf", "POINTS"}, {"SCAN", "nf", "BOUNDS"}, {"NEARBY", "nf", "DISTANCE", "POINT", "1", "2"}, {"BOUNDS", "nf"}, {"DEL", "nf", "a"}}
+	ts := []tmpl{
+		{[]string{"NEARBY", "fleet", "DISTANCE", "POINT", "33.5", "-112.25", "100000"}, []int{4, 5, 6}, nil},
+		{[]string{"NEARBY", "fleet", "DISTANCE", "IDS", "LIMIT", "3", "POINT", "33.5", "-112.25"}, []int{5, 7, 8}, nil},
+		{[]string{"NEARBY", "fleet", "SPARSE", "2", "POINT", "33.5", "-112.25", "100000"}, []int{3, 7}, nil},
+		{[]string{"WITHIN", "fleet", "CIRCLE", "33.5", "-112.25", "20000"}, []int{3, 4, 5}, nil},
+		{[]string{"INTERSECTS", "fleet", "DISTANCE", "CIRCLE", "33.5", "-112.25", "20000"}, []int{4, 5, 6}, nil},
+		{[]string{"WITHIN", "fleet", "BOUNDS", "33", "-113", "34", "-112"}, []int{3, 4, 5, 6}, nil},
+		{[]string{"INTERSECTS", "fleet", "CLIP", "BOUNDS", "33", "-113", "34", "-112"}, []int{4, 5, 6, 7}, nil},
+		{[]string{"INTERSECTS", "fleet", "SECTOR", "33.5", "-112.25", "30000", "0", "90"}, []int{3, 4, 5, 6, 7}, nil},
+		{[]string{"WITHIN", "fleet", "TILE", "24", "51", "7"}, []int{3, 4, 5}, nil},
+		{[]string{"WITHIN", "fleet", "MVT", "24", "51", "7"}, []int{3, 4, 5}, nil},
+		{[]string{"WITHIN", "fleet", "BUFFER", "1000", "BOUNDS", "33", "-113", "34", "-112"}, []int{3}, nil},
+		{[]string{"INTERSECTS", "fleet", "BUFFER", "1000", "CIRCLE", "33.5", "-112.25", "1000"}, []int{3}, nil},
+		{[]string{"SCAN", "fleet", "LIMIT", "3", "CURSOR", "1"}, []int{3, 5}, nil},
+		{[]string{"SCAN", "fleet", "HASHES", "6"}, []int{3}, nil},
+		{[]string{"SCAN", "fleet", "WHERE", "speed", "1", "20"}, []int{4, 5}, nil},
+		{[]string{"SCAN", "fleet", "WHEREIN", "speed", "2", "10", "7.5"}, []int{4, 5}, nil},
+		{[]string{"GET", "fleet", "t1", "HASH", "7"}, []int{4}, nil},
+		{[]string{"TEST", "POINT", "33.5", "-112.25", "WITHIN", "CIRCLE", "33.5", "-112.25", "5000"}, []int{2, 3, 6, 7, 8}, nil},
+		{[]string{"TEST", "BOUNDS", "1", "2", "3", "4", "INTERSECTS", "CLIP", "BOUNDS", "0", "0", "5", "5"}, []int{2, 5, 9, 12}, nil},
+		{[]string{"TIMEOUT", "120", "SCAN", "fleet", "LIMIT", "2"}, []int{1}, nil},
+		{[]string{"SET", "nf", "a", "POINT", "1", "2", "3"}, []int{4, 5, 6}, readNF},
+		{[]string{"SET", "nf", "a", "BOUNDS", "1", "2", "3", "4"}, []int{4, 5, 6, 7}, readNF},
+		{[]string{"SET", "nf", "a", "FIELD", "f", "1", "POINT", "1", "2"}, []int{5}, [][]string{{"GET", "nf", "a", "WITHFIELDS"}, {"FGET", "nf", "a", "f"}, {"SCAN", "nf", "WHERE", "f", "-inf", "+inf"}, {"SCAN", "nf", "WHERE", "f == 1"}, {"DEL", "nf", "a"}}},
+		{[]string{"FSET", "fleet", "t6", "speed", "1"}, []int{4}, [][]string{{"FGET", "fleet", "t6", "speed"}, {"SCAN", "fleet", "LIMIT", "3", "DESC"}, {"FSET", "fleet", "t6", "speed", "0"}}},
+		{[]string{"SET", "nf", "a", "EX", "500000", "POINT", "1", "2"}, []int{4}, [][]string{{"DEL", "nf", "a"}}},
+		{[]string{"EXPIRE", "nf", "a", "500000"}, []int{3}, [][]string{{"DEL", "nf", "a"}}},
+		{[]string{"SETHOOK", "nfh", hookURLs[0], "EX", "500000", "NEARBY", "fleet", "FENCE", "POINT", "33.5", "-112.2", "5000"}, []int{4, 9, 10, 11}, [][]string{{"HOOKS", "nfh"}, {"DELHOOK", "nfh"}}},
+		{[]string{"SETCHAN", "nfc", "NEARBY", "fleet", "FENCE", "ROAM", "fleet", "*", "1000"}, []int{8}, [][]string{{"CHANS", "nfc"}, {"DELCHAN", "nfc"}}},
+		{[]string{"JSET", "nf", "j", "v", "1"}, []int{4}, [][]string{{"JGET", "nf", "j"}, {"JGET", "nf", "j", "v", "RAW"}, {"DEL", "nf", "j"}}},
+		{[]string{"AOFMD5", "0", "0"}, []int{1, 2}, nil},
+		{[]string{"REPLCONF", "listening-port", "4242"}, []int{2}, nil},
+	}
+	var out []step
+	n := 0
+	for _, t := range ts {
+		for _, slot := range t.slots {
+			for _, sp := range nonFiniteSpellings {
+				args := append([]string{}, t.args...)
+				args[slot] = sp
+				lane := lanesAll[n%len(lanesAll)]
+				n++
+				if args[0] == "EXPIRE" {
+					// needs an object, set right before it (a deadline in the past removes it soon after)
+					st := mkStep([]string{"SET", "nf", "a", "POINT", "1", "2"}, "c-resp", "set", "nonfinite-slot")
+					st.Force = true
+					out = append(out, st)
+				}
+				name, _, _ := cmdName(args)
+				st := mkStep(args, lane, name, "nonfinite-slot")
+				st.Force = true
+				out = append(out, st)
+				for _, a := range t.after {
+					an, _, _ := cmdName(a)
+					as := mkStep(a, lanesAll[n%len(lanesAll)], an, "nonfinite-slot")
+					as.Force = true
+					n++
+					out = append(out, as)
+				}
+			}
+		}
+	}
+	return out
 }
